@@ -14,12 +14,21 @@
       it (C07_identifier_*, C07_keyword_*, C07_statement_keyword_*);
     * string literals denote exactly the written characters under the escape table, integer literals their decimal
       value (C07_string_literal, C07_integer_literal).
-  What is NOT a theorem: the composition of these token-level facts through the recursive grammar into
-  `parse (print ast layout) = ast` for whole files. That composition is covered
-  by the correspondence check (implementation AST = model AST on generated programs under random layouts, and both
-  = the AST of the house layout modulo locations).
+    * ROUND TRIP FOR EXPRESSIONS (C07_roundtrip_*; helper lemmas in Tsg/Proofs/ParserRound.lean): the class of texts
+      that `parse_expression` reads back exactly (`ExprText`: the written expression, the locations of the places
+      where its parts start, exactly the written characters consumed) contains every atom (`#true`/`#false`/`#null`,
+      integers, strings, captures, regex captures, variables) and is closed under EVERY production of the
+      expression grammar — scoped-variable chains `e.a.b`, calls `(f e*)`, list and set literals (empty, single,
+      many, with optional trailing comma), list and set comprehensions — with an arbitrary layout gap (whitespace,
+      line breaks, comments) at every place the grammar allows one. The side conditions are exactly the lexical
+      ones a printer has to respect (a name is not followed by a name character, a number not by a digit, `.`
+      does not follow an expression that is not meant to be scoped, …).
+  What is NOT a theorem: the same composition for statements, stanzas and whole files (`parse (print file layout)
+  = file`). That part is covered by the correspondence check (implementation AST = model AST on generated
+  programs under random layouts, and both = the AST of the house layout modulo locations).
 -/
 import Tsg.Proofs.ParserTok
+import Tsg.Proofs.ParserRound
 
 namespace C07
 open PP Parser
@@ -186,5 +195,149 @@ theorem C07_decimal_value (ds : List Char) (c : Char) : digitsToNat (ds ++ [c]) 
   digitsToNat_snoc ds c
 
 example : digitsToNat ['4', '0', '9', '6'] = 4096 := by decide
+
+/-! ### round trip for expressions
+
+`ExprText o n cs rd F`: whenever the remaining input is `cs ++ tail`, `tail` starts with a character allowed by `F`,
+and the fuel is at least `n`, `parse_expression` succeeds, returns `rd s` (the expression, located relative to the
+state `s` where it starts) and leaves the parser exactly behind `cs`. `PrimText` is the same for a primary
+expression in front of an optional `.name` chain. -/
+
+/-- atoms followed by a gap and any `.name` chain: literals, captures, variables, scoped variables -/
+theorem C07_roundtrip_atom_chain (o : POracle) (a : Atom) (g0 : List Char) (segs : List Seg) (hwf : a.WF o) (hg0 : Gap o g0) :
+    ExprText o (segs.length + 2) (chainText a g0 segs)
+      (fun s => chainExpr (advL s (a.text ++ g0)) (a.expr s) segs) (ChainFollow o a g0 segs) :=
+  exprText_chain o a g0 segs hwf hg0
+
+/-- the unfolded statement of the same fact: result, locations and the exact final state -/
+theorem C07_roundtrip_atom_chain_run (o : POracle) (fuel : Nat) (a : Atom) (g0 : List Char) (segs : List Seg)
+    (s : PS) (tail : List Char)
+    (hs : s.rest = chainText a g0 segs ++ tail)
+    (hwf : a.WF o) (hfol : a.Follow o (g0 ++ segsText segs ++ tail).head?)
+    (hg0 : Gap o g0) (htok : TokenStart o (segsText segs ++ tail)) (hsegs : SegsWF o segs tail)
+    (hfuel : segs.length < fuel) (hof : s.rest.length ≤ o.fuel) (hf5 : 5 ≤ o.fuel) :
+    run (parseExpression o (fuel + 1)) s =
+      (.ok (chainExpr (advL s (a.text ++ g0)) (a.expr s) segs), advL s (chainText a g0 segs)) :=
+  run_parseExpression_chain o fuel a g0 segs s tail hs hwf hfol hg0 htok hsegs hfuel hof hf5
+
+/-- any primary expression followed by a gap and any `.name` chain is an expression -/
+theorem C07_roundtrip_primary_chain (o : POracle) (n : Nat) (cs : List Char) (rd : PS → Expr) (F : Option Char → Prop)
+    (hp : PrimText o n cs rd F) (g0 : List Char) (segs : List Seg) (hg0 : Gap o g0) :
+    ExprText o (max n segs.length + 2) (cs ++ g0 ++ segsText segs)
+      (fun s => chainExpr (advL s (cs ++ g0)) (rd s) segs) (PrimChainFollow o F g0 segs) :=
+  exprText_of_prim o n cs rd F hp g0 segs hg0
+
+/-- calls: `( gap name gap arg* )`, every argument an expression text (with its own trailing gap) -/
+theorem C07_roundtrip_call (o : POracle) (g1 : List Char) (fc : Char) (frest g2 : List Char) (items : List Item)
+    (hg1 : Gap o g1) (hg2 : Gap o g2) (hfc : isIdentStart o fc = true) (hfr : ∀ x ∈ frest, isIdent o x = true)
+    (hsemi : fc ≠ ';') (hws : isWs o fc = false)
+    (hfol : ∀ x, (g2 ++ itemsText items ++ [')']).head? = some x → isIdent o x = false)
+    (htok : TokenStart o (itemsText items ++ [')'])) (hitems : ItemsOK o ')' items) :
+    PrimText o (items.length + itemsFuel items + 2) (callText g1 fc frest g2 items)
+      (fun s => .call (String.ofList (fc :: frest)) (itemsExprs (advL s ('(' :: g1 ++ fc :: frest ++ g2)) items))
+      (fun _ => True) :=
+  primText_call o g1 fc frest g2 items hg1 hg2 hfc hfr hsemi hws hfol htok hitems
+
+/-- list and set literals: empty, one element, many elements (separators with gaps, optional trailing comma) -/
+theorem C07_roundtrip_collection (o : POracle) (isList : Bool) (g1 : List Char) (f : CollForm)
+    (hg1 : Gap o g1) (hok : f.OK o isList) :
+    PrimText o (f.fuel + 2) (collText isList g1 f)
+      (fun s => (if isList then Expr.list else Expr.set) (f.exprs (advL s (openC isList :: g1)))) (fun _ => True) :=
+  primText_collection o isList g1 f hg1 hok
+
+/-- list and set comprehensions `[ elem for v in value ]`, including the location of the loop variable -/
+theorem C07_roundtrip_comprehension (o : POracle) (isList : Bool) (g1 : List Char) (elem : Item) (gFor : List Char)
+    (vc : Char) (vrest gV gIn : List Char) (value : Item)
+    (hg1 : Gap o g1) (hgFor : Gap o gFor) (hgV : Gap o gV) (hgIn : Gap o gIn)
+    (helem : ExprText o elem.n elem.cs elem.rd elem.F) (hFe : elem.F (some 'f'))
+    (hehead : elem.cs.head? ≠ some (closeC isList)) (hetok : ∃ c r, elem.cs = c :: r ∧ c ≠ ';' ∧ isWs o c = false)
+    (hvc : isIdentStart o vc = true) (hvr : ∀ x ∈ vrest, isIdent o x = true) (hvsemi : vc ≠ ';') (hvws : isWs o vc = false)
+    (hvfol : ∀ x, (gV ++ "in".toList).head? = some x → isIdent o x = false)
+    (hvalue : ExprText o value.n value.cs value.rd value.F) (hFv : value.F (some (closeC isList)))
+    (hvtok : ∃ c r, value.cs = c :: r ∧ c ≠ ';' ∧ isWs o c = false) :
+    PrimText o (max elem.n value.n + 5) (compText isList g1 elem gFor vc vrest gV gIn value)
+      (fun s =>
+        let sE := advL s (openC isList :: g1)
+        let sV := advL sE (elem.cs ++ "for".toList ++ gFor)
+        let sX := advL sV (vc :: vrest ++ gV ++ "in".toList ++ gIn)
+        if isList then Expr.listComp (elem.rd sE) (String.ofList (vc :: vrest)) (locOf sV) (value.rd sX) (locOf s)
+        else Expr.setComp (elem.rd sE) (String.ofList (vc :: vrest)) (locOf sV) (value.rd sX) (locOf s))
+      (fun _ => True) :=
+  primText_comprehension o isList g1 elem gFor vc vrest gV gIn value hg1 hgFor hgV hgIn helem hFe hehead hetok
+    hvc hvr hvsemi hvws hvfol hvalue hFv hvtok
+
+/-! non-vacuity: the hypotheses are met by a concrete comprehension, for every oracle; the instantiated theorem
+    gives the parse result of the concrete text, locations included -/
+
+theorem ws_space (o : POracle) : isWs o ' ' = true := by simp [isWs]
+theorem gap_space (o : POracle) : Gap o [' '] := Gap.ws ' ' [] (ws_space o) Gap.nil
+
+def exElem (o : POracle) : Item :=
+  { n := 2, cs := chainText .trueLit [' '] [],
+    rd := fun s => chainExpr (advL s (Atom.trueLit.text ++ [' '])) (Atom.trueLit.expr s) [],
+    F := ChainFollow o .trueLit [' '] [] }
+def exValue (o : POracle) : Item :=
+  { n := 2, cs := chainText (.capture 'x' ['s']) [' '] [],
+    rd := fun s => chainExpr (advL s ((Atom.capture 'x' ['s']).text ++ [' '])) ((Atom.capture 'x' ['s']).expr s) [],
+    F := ChainFollow o (.capture 'x' ['s']) [' '] [] }
+
+theorem ex_comp (o : POracle) :
+    PrimText o 7 (compText true [' '] (exElem o) [' '] 'v' [] [' '] [' '] (exValue o))
+      (fun s =>
+        let sE := advL s ('[' :: [' '])
+        let sV := advL sE ((exElem o).cs ++ "for".toList ++ [' '])
+        let sX := advL sV ('v' :: [] ++ [' '] ++ "in".toList ++ [' '])
+        Expr.listComp ((exElem o).rd sE) (String.ofList ['v']) (locOf sV) ((exValue o).rd sX) (locOf s))
+      (fun _ => True) := by
+  have h := C07_roundtrip_comprehension o true [' '] (exElem o) [' '] 'v' [] [' '] [' '] (exValue o)
+    (gap_space o) (gap_space o) (gap_space o) (gap_space o)
+    (C07_roundtrip_atom_chain o .trueLit [' '] [] trivial (gap_space o))
+    (by
+      intro tail ht
+      refine ⟨?_, ?_, ?_, ?_⟩
+      · intro x hx; simp [segsText] at hx; subst hx; simp [isIdent, isAlnum]
+      · cases tail with
+        | nil => simp at ht
+        | cons c r => simp at ht; subst ht; exact Or.inr ⟨'f', r, by simp [segsText], by decide, by simp [isWs]⟩
+      · cases tail with
+        | nil => simp at ht
+        | cons c r => simp at ht; subst ht; exact Or.inr ⟨'f', r, rfl, by decide, by simp [isWs]⟩
+      · rw [ht]; simp)
+    (by simp [exElem, chainText, Atom.text, closeC])
+    ⟨'#', "true ".toList, by simp [exElem, chainText, Atom.text, segsText], by decide, by simp [isWs]⟩
+    (by simp [isIdentStart, isAlpha]) (by simp) (by decide) (by simp [isWs])
+    (by intro x hx; simp at hx; subst hx; simp [isIdent, isAlnum])
+    (C07_roundtrip_atom_chain o (.capture 'x' ['s']) [' '] [] (by simp [Atom.WF, isIdentStart, isIdent, isAlpha, isAlnum]) (gap_space o))
+    (by
+      intro tail ht
+      refine ⟨?_, ?_, ?_, ?_⟩
+      · intro x hx; simp [segsText] at hx; subst hx; simp [isIdent, isAlnum]
+      · cases tail with
+        | nil => simp at ht
+        | cons c r => simp [closeC] at ht; subst ht; exact Or.inr ⟨']', r, by simp [segsText], by decide, by simp [isWs]⟩
+      · cases tail with
+        | nil => simp at ht
+        | cons c r => simp [closeC] at ht; subst ht; exact Or.inr ⟨']', r, rfl, by decide, by simp [isWs]⟩
+      · rw [ht]; simp [closeC])
+    ⟨'@', "xs ".toList, by simp [exValue, chainText, Atom.text, segsText], by decide, by simp [isWs]⟩
+  simpa [exElem, exValue, openC] using h
+
+/-- the instantiated round trip, for every oracle: the text `[ #true for v in @xs ]` parses to the comprehension
+    it spells, with the locations of `[`, `v` and `@xs`, and is consumed entirely -/
+example (o : POracle) (hf : 30 ≤ o.fuel) :
+    run (parseExpression o 9) (initState "[ #true for v in @xs ]") =
+      (.ok (Expr.listComp .trueLit "v" ⟨0, 12⟩ (.capture "xs" .zero usizeMax usizeMax ⟨0, 17⟩) ⟨0, 0⟩),
+       { rest := [], row := 0, col := 22, off := 22 }) := by
+  have h := C07_roundtrip_primary_chain o 7 _ _ _ (ex_comp o) [] [] Gap.nil 9 (initState "[ #true for v in @xs ]") []
+    (by simp) (by simp [initState, compText, exElem, exValue, chainText, Atom.text, segsText, openC, closeC])
+    (by
+      intro tail ht
+      cases tail with
+      | nil => exact ⟨trivial, Or.inl rfl, Or.inl rfl, by simp⟩
+      | cons c r => simp at ht)
+    (by simp [initState]; omega) (by omega)
+  rw [h]
+  simp [initState, compText, exElem, exValue, chainText, chainExpr, Atom.text, Atom.expr, segsText, openC, closeC, advL, locOf]
+  decide
 
 end C07
